@@ -26,3 +26,8 @@ open AcmedVerif.Props.C10
 #print axioms model_satisfies_holds
 #print axioms model_satisfies_envHolds
 #print axioms model_matches_expectedChildEnv
+#print axioms documented_vars_in_compiled_structs
+#print axioms documented_vars_compiled
+-- C10.4 (bracketing of file writes) is proved with the storage model
+#print axioms AcmedVerif.Props.C02.bracket_kind
+#print axioms AcmedVerif.Props.C02.bracket
